@@ -101,9 +101,9 @@ theorem good_ite {α} {c : Prop} [Decidable c] {P : α → Prop} {a b : CM α} (
 
 /-! ### loops -/
 
-theorem st_withLoop_bind {β} {body : CM Unit} {f : Loop → CM β} {s0 s : CState} {ps : List Nat}
-    {Q : β → CState → Prop} (hb : Good body) (hst : St s0 ps s)
-    (h : ∀ loop s', St s0 (loop.breaks ++ loop.continues ++ ps) s' → Sat (f loop) s' Q) :
+theorem st_withLoop_bind {β} {body : CM Unit} {f : Loop → CM β} {s0 s : CState} {ps ts : List Nat}
+    {Q : β → CState → Prop} (hb : Good body) (hst : St s0 ps ts s)
+    (h : ∀ loop s', St s0 (loop.breaks ++ loop.continues ++ ps) ts s' → Sat (f loop) s' Q) :
     Sat (withLoop body >>= f) s Q := by
   apply Sat.bind
   unfold withLoop pushLoop
@@ -112,7 +112,7 @@ theorem st_withLoop_bind {β} {body : CM Unit} {f : Loop → CM β} {s0 s : CSta
   generalize hs1 : ({ s with loops := { lastTryCatchIndex := s.tryCatchIndex } :: s.loops } : CState) = s1
   have hi1 : Inv s1 := by
     subst hs1
-    refine ⟨hst.inv.ne, hst.inv.tabs, hst.inv.walk, ?_, hst.inv.consts⟩
+    refine ⟨hst.inv.ne, hst.inv.tabs, hst.inv.walk, ?_, hst.inv.consts, hst.inv.targets⟩
     intro l hl p hp
     simp at hl
     rcases hl with hl | hl
@@ -142,7 +142,7 @@ theorem st_withLoop_bind {β} {body : CM Unit} {f : Loop → CM β} {s0 s : CSta
   apply h
   have hsz : s.insts.size ≤ s2.insts.size := by rw [← hin1]; exact hr2.pre.1
   have hpre : Pre s.insts s2.insts := by rw [← hin1]; exact hr2.pre
-  refine ⟨⟨hi2.ne, hi2.tabs, hi2.walk, ?_, hi2.consts⟩, ?_, ?_⟩
+  refine ⟨⟨hi2.ne, hi2.tabs, hi2.walk, ?_, hi2.consts, hi2.targets⟩, ?_, ?_, ?_⟩
   · intro l hl p hp
     exact hi2.loops l (by rw [hl2]; simp [hl]) p hp
   · refine ⟨by rw [← hst.rel.tlen, ← ht1]; exact hr2.tlen, hst.rel.pre.trans hpre, hst.rel.llen, hst.rel.ltail, ?_⟩
@@ -163,6 +163,8 @@ theorem st_withLoop_bind {β} {body : CM Unit} {f : Loop → CM β} {s0 s : CSta
       · simp at h'
       · rw [hin1] at h'; omega
     · exact ⟨(hst.pend p hp).1.pre hpre, (hst.pend p hp).2⟩
+  · intro t ht
+    exact (hst.tgt t ht).pre hpre
 
 
 /-! ### a small tactic for compositional goals `Good (do …)` -/
@@ -171,13 +173,24 @@ theorem st_withLoop_bind {β} {body : CM Unit} {f : Loop → CM β} {s0 s : CSta
 syntax "opc" : tactic
 macro_rules | `(tactic| opc) => `(tactic| first | decide | (split <;> decide))
 
+/-- side goals `StaticArgs op args` -/
+syntax "opa" : tactic
+macro_rules | `(tactic| opa) => `(tactic| first
+  | exact ⟨fun h => absurd h (by decide), fun h => absurd h (by decide)⟩
+  | exact ⟨fun _ => rfl, fun h => absurd h (by decide)⟩
+  | exact ⟨fun h => absurd h (by decide), fun _ => rfl⟩
+  | (split <;> first
+      | exact ⟨fun h => absurd h (by decide), fun h => absurd h (by decide)⟩
+      | exact ⟨fun _ => rfl, fun h => absurd h (by decide)⟩))
+
 syntax "good_leaf" : tactic
 macro_rules | `(tactic| good_leaf) => `(tactic| first
   | with_reducible assumption
   | with_reducible exact GoodP.pure trivial
   | with_reducible exact GoodP.cerr | with_reducible exact GoodP.throw_err
   | with_reducible exact GoodP.throw_bare | with_reducible exact GoodP.cunsupported
-  | ((with_reducible refine good_emit_ ?_); opc) | ((with_reducible refine good_emit ?_); opc)
+  | ((with_reducible refine good_emit_ ?_ ?_) <;> first | opc | opa)
+  | ((with_reducible refine good_emit ?_ ?_) <;> first | opc | opa)
   | with_reducible exact good_addConstant _
   | with_reducible exact good_get | with_reducible exact good_curPos
   | with_reducible exact good_currentLoop | with_reducible exact good_headTable
@@ -341,7 +354,7 @@ theorem good_compileDefine (pos : Pos) (ident : String) (allow : Bool) (keyword 
       · apply Sat.bind
         unfold emit_
         apply Sat.bind
-        apply sat_emit hi1 (by decide)
+        apply sat_emit hi1 (by decide) (StaticArgs.argsOK (by opa) _)
         intro s2 hi2 hr2 _ ht2
         apply Sat.pure
         -- the symbol under `ident` in the head table is still `sym`, which is not a CONSTLIT symbol
@@ -404,7 +417,7 @@ theorem good_compileIdentsNoValue (pos : Pos) (tok : Nat) {last : Option (CM Uni
       · exact h
       · cases h
     · refine GoodP.bind (P := fun _ => True) ?_ (fun _ _ => this)
-      exact good_compileValueIdent pos tok name (good_emit_ (by decide)) _
+      exact good_compileValueIdent pos tok name (good_emit_ (by decide) (by opa)) _
 
 theorem good_declParamVariadic (pos : Pos) : ∀ l : List (Pos × String × Bool), Good (declParamVariadic pos l)
   | [] => by unfold declParamVariadic; good
@@ -438,15 +451,15 @@ theorem good_defineCatchIdent (pos : Pos) (name : String) : Good (defineCatchIde
   have := good_defineLocal name
   unfold defineCatchIdent; good
 
-theorem good_forinVar (pos : Pos) (it : Int) {op : Nat} (hop : op < numOpcodes) (name : String) :
+theorem good_forinVar (pos : Pos) (it : Int) {op : Nat} (hop : op < numOpcodes) (ha : StaticArgs op []) (name : String) :
     Good (forinVar pos it op name) := by
   have := good_defineLocal name
-  have : Good (emit_ pos op) := good_emit_ hop
+  have : Good (emit_ pos op) := good_emit_ hop ha
   unfold forinVar; good
 
 
 /-- adding a pending position to the innermost loop -/
-theorem sat_modLoop_add {f : Loop → Loop} {p : Nat} {s0 s : CState} {ps : List Nat} (hst : St s0 ps s) (hp : p ∈ ps)
+theorem sat_modLoop_add {f : Loop → Loop} {p : Nat} {s0 s : CState} {ps ts : List Nat} (hst : St s0 ps ts s) (hp : p ∈ ps)
     (hf : ∀ l q, (q ∈ (f l).breaks → q ∈ l.breaks ∨ q = p) ∧ (q ∈ (f l).continues → q ∈ l.continues ∨ q = p)) :
     Sat (modLoop f) s (fun _ s' => Inv s' ∧ Rel s0 s' ∧ True) := by
   unfold modLoop
@@ -455,13 +468,13 @@ theorem sat_modLoop_add {f : Loop → Loop} {p : Nat} {s0 s : CState} {ps : List
   cases hl : s.loops with
   | nil =>
     simp only
-    refine ⟨⟨hst.inv.ne, hst.inv.tabs, hst.inv.walk, fun l h => by simp at h, hst.inv.consts⟩,
+    refine ⟨⟨hst.inv.ne, hst.inv.tabs, hst.inv.walk, fun l h => by simp at h, hst.inv.consts, hst.inv.targets⟩,
       ⟨hst.rel.tlen, hst.rel.pre, ?_, ?_, fun l0 l' _ h' => by simp at h'⟩, trivial⟩
     · have := hst.rel.llen; rw [hl] at this; simpa using this
     · have := hst.rel.ltail; rw [hl] at this; simpa using this
   | cons l r =>
     simp only [hl]
-    refine ⟨⟨hst.inv.ne, hst.inv.tabs, hst.inv.walk, ?_, hst.inv.consts⟩, ⟨hst.rel.tlen, hst.rel.pre, ?_, ?_, ?_⟩, trivial⟩
+    refine ⟨⟨hst.inv.ne, hst.inv.tabs, hst.inv.walk, ?_, hst.inv.consts, hst.inv.targets⟩, ⟨hst.rel.tlen, hst.rel.pre, ?_, ?_, ?_⟩, trivial⟩
     · intro l' hl' q hq
       simp at hl'
       rcases hl' with hl' | hl'
@@ -506,7 +519,7 @@ theorem good_compileBranch (pos : Pos) (tok : Nat) : Good (compileBranch pos tok
           emit_ pos OpFinalizer [‹Loop›.lastTryCatchIndex + 1] else Pure.pure ()) := by good
       apply st_good_bind hf hst
       intro _ s3 _ hst
-      apply st_emit_bind hst (by decide)
+      apply st_emit_bind hst (by decide) (.inl (by opa))
       intro s4 hst
       split
       · exact sat_modLoop_add (p := s3.insts.size) hst (by simp) (fun l q => by simp; exact fun h => .inl h)
@@ -527,13 +540,13 @@ theorem good_finishFn : Good finishFn := by
   | some r => exact good_finishTail r.1 r.2 s hs
 
 theorem goodP_finishTail (lastOp : Nat) (pend : List Nat) :
-    GoodP (fun fn => Walk fn.insts 0 fn.insts.size) (finishTail lastOp pend) := by
+    GoodP (fun fn => StreamOK fn.insts) (finishTail lastOp pend) := by
   unfold finishTail
   refine GoodP.bind (P := fun _ => True) (by good) fun _ _ => ?_
   refine GoodP.bind goodP_get_inv fun st hst => ?_
-  exact GoodP.bind good_headTable fun t _ => GoodP.pure hst.walk
+  exact GoodP.bind good_headTable fun t _ => GoodP.pure ⟨hst.walk, hst.targets⟩
 
-theorem goodP_finishFn : GoodP (fun fn => Walk fn.insts 0 fn.insts.size) finishFn := by
+theorem goodP_finishFn : GoodP (fun fn => StreamOK fn.insts) finishFn := by
   intro s hs
   unfold finishFn
   apply Sat.bind
@@ -544,7 +557,7 @@ theorem goodP_finishFn : GoodP (fun fn => Walk fn.insts 0 fn.insts.size) finishF
   | some r => exact goodP_finishTail r.1 r.2 s hs
 
 theorem goodP_withFn (pos : Pos) (variadic : Bool) (params : List String) {body : CM Unit} (hb : Good body) :
-    GoodP (fun r => Walk r.1.insts 0 r.1.insts.size) (withFn pos variadic params body) := by
+    GoodP (fun r => StreamOK r.1.insts) (withFn pos variadic params body) := by
   intro s hs
   obtain ⟨t, r, htr⟩ : ∃ t r, s.tables = t :: r := by
     cases h : s.tables with
@@ -572,7 +585,8 @@ theorem goodP_withFn (pos : Pos) (variadic : Bool) (params : List String) {body 
   generalize hs3 : ({ s2 with insts := #[], sourceMap := [], loops := [], tryCatchIndex := -1, iotaVal := -1, variadic := variadic } : CState) = s3
   have hi3 : Inv s3 := by
     subst hs3
-    exact ⟨hi2.ne, hi2.tabs, Walk.refl 0, fun l hl => by simp at hl, hi2.consts⟩
+    exact ⟨hi2.ne, hi2.tabs, Walk.refl 0, fun l hl => by simp at hl, hi2.consts,
+      fun p op hbd _ => absurd hbd.2 (by simp)⟩
   have ht3 : s3.tables = s2.tables := by subst hs3; rfl
   apply Sat.bind
   apply Sat.mono (hb s3 hi3)
@@ -603,7 +617,7 @@ theorem goodP_withFn (pos : Pos) (variadic : Bool) (params : List String) {body 
     rw [ht3] at h4
     simp at h5
     omega
-  refine ⟨⟨?_, ?_, hi2.walk, hi2.loops, hi5.consts⟩, hr2.transfer hin1 hl1 rfl rfl hlen, hfn⟩
+  refine ⟨⟨?_, ?_, hi2.walk, hi2.loops, hi5.consts, hi2.targets⟩, hr2.transfer hin1 hl1 rfl rfl hlen, hfn⟩
   · intro h
     simp only at h
     rw [h, htr] at hlen
